@@ -40,6 +40,19 @@ def leaf_of(vc, env, node, name="p"):
                 v = z3.ToReal(v) if z3.is_int(v) else v
                 env[key] = T.const_tensor(shp, v)
                 return env[key]
+            if type(val).__name__ == "NdArray" and len(shp) == 1:
+                vals = [T._real(x) for x in val.values]
+
+                def elem(idx, vals=vals):
+                    i = T.lin(idx[0])
+                    if isinstance(i, int):
+                        return vals[i]
+                    r = vals[-1]
+                    for j in range(len(vals) - 2, -1, -1):
+                        r = z3.If(to_z3(i) == j, vals[j], r)
+                    return r
+                env[key] = Tensor(shp, elem, "float")
+                return env[key]
         t = vc.tensor(f"{name}{len(env)}", shp)
         env[key] = t
         dt = node.fields.get("dtype")
